@@ -44,6 +44,7 @@ func (m *Mutex) Lock() {
 		ch := make(chan struct{})
 		m.waiters = append(m.waiters, ch)
 		m.mu.Unlock()
+		zzsim.Blocking("sync.Mutex.Lock")
 		<-ch
 		zzsim.W("sync.Mutex.Lock")
 	}
@@ -89,6 +90,7 @@ func (m *RWMutex) wait() {
 	ch := make(chan struct{})
 	m.waiters = append(m.waiters, ch)
 	m.mu.Unlock()
+	zzsim.Blocking("sync.RWMutex")
 	<-ch
 }
 
